@@ -191,7 +191,7 @@ def tasks(tier):
     for cx in (False, True):
         for (N, p) in sizes:
             ts.append(gram_task(N, p, cx))
-            if cx and p > 1:
-                continue            # complex end-to-end expansion beyond order 1 is out of reach of the exact engine
+            if (cx and p > 1) or (N, p) == (6, 3):
+                continue            # complex end-to-end expansion beyond order 1, and real N = 6, p = 3 (no result within 150 s), are out of reach of the exact engine
             ts.append(normal_eq_task(N, p, cx))
     return ts
